@@ -454,6 +454,19 @@ class Confinement:
                 self.refine(env, R, b, "G2", fi)
                 return env
             return env
+        if isinstance(test, ast.Call) and isinstance(test.func, ast.Name) and test.func.id == "isinstance" and not truth \
+                and len(test.args) == 2 and isinstance(test.args[0], ast.Name) and env.prov.get(test.args[0].id) is not None:
+            # `not isinstance(I, Point)` where the type inference knows I to be a Point or a Line here: I is a Line
+            v = test.args[0].id
+            pv = env.prov.get(v)
+            excl = {x.id for x in ([test.args[1]] if isinstance(test.args[1], ast.Name) else
+                                   (test.args[1].elts if isinstance(test.args[1], ast.Tuple) else [])) if isinstance(x, ast.Name)}
+            here = {str(t) for t in self.ctx.types.types_at(fi, test.args[0]) if not isinstance(t, tuple)}
+            if excl and here and (here - excl) == {pv[2]}:
+                X, U, _ = pv
+                uconf = U.conf if isinstance(U, _Pre) else self.selfconf(U, env, fi)
+                self.refine(env, ast.Name(id=X, ctx=ast.Load()), uconf, "G3", fi)
+            return env
         if isinstance(test, ast.Call) and isinstance(test.func, ast.Name) and test.func.id == "isinstance" and truth \
                 and len(test.args) == 2 and isinstance(test.args[0], ast.Name):
             v = test.args[0].id
